@@ -242,6 +242,84 @@ fn chain_arr<const N: usize>(cid: Cid, v: Vec<KStr>) -> BS {
     Box::pin(TapS::new(cid, arr::<_, N>(v).chain(), n_item))
 }
 
+// ---- the same array / Vec combinators over leaf types without drop glue (flat shapes only) -----------------
+pub const PLAIN_ARRAY_LENS: [usize; 5] = [1, 2, 3, 5, 8];
+macro_rules! plain_arr_dispatch {
+    ($f:ident, $cid:ident, $v:ident) => {
+        match $v.len() {
+            1 => $f::<1>($cid, $v),
+            2 => $f::<2>($cid, $v),
+            3 => $f::<3>($cid, $v),
+            5 => $f::<5>($cid, $v),
+            8 => $f::<8>($cid, $v),
+            n => unreachable!("plain array length {n} not instantiated"),
+        }
+    };
+}
+fn p_join_arr<const N: usize>(cid: Cid, v: Vec<PFut>) -> BF {
+    Box::pin(TapF::new(cid, arr::<_, N>(v).join(), n_join_iter::<[R; N]>))
+}
+fn p_try_join_arr<const N: usize>(cid: Cid, v: Vec<PFut>) -> BF {
+    Box::pin(TapF::new(cid, arr::<_, N>(v).try_join(), n_tryjoin_iter::<[Val; N]>))
+}
+fn p_race_arr<const N: usize>(cid: Cid, v: Vec<PFut>) -> BF {
+    Box::pin(TapF::new(cid, arr::<_, N>(v).race(), n_race))
+}
+fn p_race_ok_arr<const N: usize>(cid: Cid, v: Vec<PFut>) -> BF {
+    Box::pin(TapF::new(cid, arr::<_, N>(v).race_ok(), n_raceok::<_, [Val; N]>))
+}
+fn p_merge_arr<const N: usize>(cid: Cid, v: Vec<PStr>) -> BS {
+    Box::pin(TapS::new(cid, arr::<_, N>(v).merge(), n_item))
+}
+fn p_zip_arr<const N: usize>(cid: Cid, v: Vec<PStr>) -> BS {
+    Box::pin(TapS::new(cid, arr::<_, N>(v).zip(), n_row::<[Val; N]>))
+}
+fn p_chain_arr<const N: usize>(cid: Cid, v: Vec<PStr>) -> BS {
+    Box::pin(TapS::new(cid, arr::<_, N>(v).chain(), n_item))
+}
+/// can this flat shape be built over leaves without drop glue?
+pub fn plain_supported(fam: Fam, cont: Cont, n: usize) -> bool {
+    let fam_ok = matches!(fam, Fam::Join | Fam::TryJoin | Fam::Race | Fam::RaceOk | Fam::Merge | Fam::Zip | Fam::Chain);
+    fam_ok && supported(fam, cont, n) && match cont {
+        Cont::Array => PLAIN_ARRAY_LENS.contains(&n),
+        Cont::Vec => n >= 1,
+        _ => false,
+    }
+}
+fn make_fut_plain(fam: Fam, cont: Cont, cid: Cid, mut v: Vec<PFut>) -> BF {
+    spare_capacity(cont, &mut v);
+    match (fam, cont) {
+        (Fam::Join, Cont::Array) => plain_arr_dispatch!(p_join_arr, cid, v),
+        (Fam::TryJoin, Cont::Array) => plain_arr_dispatch!(p_try_join_arr, cid, v),
+        (Fam::Race, Cont::Array) => plain_arr_dispatch!(p_race_arr, cid, v),
+        (Fam::RaceOk, Cont::Array) => plain_arr_dispatch!(p_race_ok_arr, cid, v),
+        #[cfg(feature = "fc-alloc")]
+        (Fam::Join, Cont::Vec) => Box::pin(TapF::new(cid, v.join(), n_join_iter::<Vec<R>>)),
+        #[cfg(feature = "fc-alloc")]
+        (Fam::TryJoin, Cont::Vec) => Box::pin(TapF::new(cid, v.try_join(), n_tryjoin_iter::<Vec<Val>>)),
+        #[cfg(feature = "fc-alloc")]
+        (Fam::Race, Cont::Vec) => Box::pin(TapF::new(cid, v.race(), n_race)),
+        #[cfg(feature = "fc-alloc")]
+        (Fam::RaceOk, Cont::Vec) => Box::pin(TapF::new(cid, v.race_ok(), n_raceok::<_, Vec<Val>>)),
+        (f, c) => unreachable!("plain future shape {f:?}/{c:?}"),
+    }
+}
+fn make_str_plain(fam: Fam, cont: Cont, cid: Cid, mut v: Vec<PStr>) -> BS {
+    spare_capacity(cont, &mut v);
+    match (fam, cont) {
+        (Fam::Merge, Cont::Array) => plain_arr_dispatch!(p_merge_arr, cid, v),
+        (Fam::Zip, Cont::Array) => plain_arr_dispatch!(p_zip_arr, cid, v),
+        (Fam::Chain, Cont::Array) => plain_arr_dispatch!(p_chain_arr, cid, v),
+        #[cfg(feature = "fc-alloc")]
+        (Fam::Merge, Cont::Vec) => Box::pin(TapS::new(cid, v.merge(), n_item)),
+        #[cfg(feature = "fc-alloc")]
+        (Fam::Zip, Cont::Vec) => Box::pin(TapS::new(cid, v.zip(), n_row::<Vec<Val>>)),
+        #[cfg(feature = "fc-alloc")]
+        (Fam::Chain, Cont::Vec) => Box::pin(TapS::new(cid, v.chain(), n_item)),
+        (f, c) => unreachable!("plain stream shape {f:?}/{c:?}"),
+    }
+}
+
 fn two<T>(mut v: Vec<T>) -> (T, T) {
     let b = v.pop().unwrap();
     let a = v.pop().unwrap();
@@ -329,6 +407,8 @@ fn make_str(fam: Fam, cont: Cont, cid: Cid, v: Vec<KStr>) -> BS {
 
 pub struct Builder {
     pub scripts: std::collections::VecDeque<LeafSpec>,
+    /// build the (flat) root over leaves without drop glue
+    pub plain: bool,
 }
 #[derive(Clone, Debug)]
 pub struct LeafSpec {
@@ -386,6 +466,10 @@ impl Builder {
     pub fn build_fut(&mut self, s: &Shape, parent: Option<(Cid, usize)>) -> BF {
         assert!(!s.fam.is_stream(), "{:?} is not a future family", s.fam);
         let cid = self.reg_node(s, parent);
+        if self.plain && parent.is_none() && !s.nested() && plain_supported(s.fam, s.cont, s.kids.len()) {
+            let kids: Vec<PFut> = (0..s.kids.len()).map(|i| PFut::new(self.reg_leaf(false, (cid, i)))).collect();
+            return make_fut_plain(s.fam, s.cont, cid, kids);
+        }
         let mut kids: Vec<KFut> = s.kids.iter().enumerate().map(|(i, k)| self.kid_fut(k, (cid, i))).collect();
         spare_capacity(s.cont, &mut kids);
         make_fut(s.fam, s.cont, cid, kids)
@@ -393,6 +477,10 @@ impl Builder {
     pub fn build_str(&mut self, s: &Shape, parent: Option<(Cid, usize)>) -> BS {
         assert!(s.fam.is_stream(), "{:?} is not a stream family", s.fam);
         let cid = self.reg_node(s, parent);
+        if self.plain && parent.is_none() && !s.nested() && plain_supported(s.fam, s.cont, s.kids.len()) {
+            let kids: Vec<PStr> = (0..s.kids.len()).map(|i| PStr::new(self.reg_leaf(true, (cid, i)))).collect();
+            return make_str_plain(s.fam, s.cont, cid, kids);
+        }
         match s.fam {
             #[cfg(feature = "fc-alloc")]
             Fam::FGroup => {
